@@ -110,8 +110,10 @@ def ctor_sites(repo, cls):
 
 def call_arg(call_sym, func, index, name):
     """Argument of a symbolic call by parameter position / name (index counts without self)."""
+    ps_ = func.params()[1:] if (func.cls is not None and not func.is_static()) else func.params()
+    actual = ps_[index] if index is not None and index < len(ps_) else name
     for kw in call_sym.keywords:
-        if kw.arg == name:
+        if kw.arg == name or kw.arg == actual:
             return kw.value
     if index is not None and index < len(call_sym.args):
         return call_sym.args[index]
@@ -119,9 +121,14 @@ def call_arg(call_sym, func, index, name):
 
 
 def param_index(func, name):
+    from ..sim import _canon_params
     ps = func.params()
+    canon = _canon_params(func) or ps
     if func.cls is not None and not func.is_static():
         ps = ps[1:]
+        canon = canon[1:]
+    if name in canon:
+        return canon.index(name)
     if name in ps:
         return ps.index(name)
     return None
@@ -135,6 +142,9 @@ def arg_by_name(ev_or_call, func, name):
     e = ev_or_call
     if name in e.kwargs:
         return e.kwargs[name]
+    ps_ = func.params()[1:] if (func.cls is not None and not func.is_static()) else func.params()
+    if idx is not None and idx < len(ps_) and ps_[idx] in e.kwargs:
+        return e.kwargs[ps_[idx]]
     if idx is not None and idx < len(e.args):
         return e.args[idx]
     return None
